@@ -345,6 +345,87 @@ def validate(events, workdir, max_shards):
     return fails, states, len(shards)
 
 
+def validate_canonical(events, workdir, max_shards):
+    """C18 in the canonical trace-validation form (spec/trace/TraceCursor.tla): the Reader / Writer machines'
+    own actions consume the recorded operations line by line; a line with no enabled action ends the
+    search.  Returns the indices (into `events`) of the cursor / vecwriter events that were rejected."""
+    blocks = []                      # (event index, [lines])
+    for i, e in enumerate(events):
+        if e.get("e") == "cursor":
+            lines = [{"e": "rreset", "slice": e["slice"]}]
+            for st in e.get("steps", []):
+                if st.get("t") == "refused":
+                    continue
+                if st.get("t") != "ok":
+                    lines.append({"e": "rop_panic", "op": st.get("op")})
+                    break
+                ln = {"e": "rop", "r": st["r"], "op": st["op"], "n": st["n"], "len": st["len"], "empty": st["empty"]}
+                for k in ("ret", "newlen", "newempty"):
+                    if k in st:
+                        ln[k] = st[k]
+                lines.append(ln)
+            blocks.append((i, lines))
+        elif e.get("e") == "vecwriter":
+            lines = [{"e": "wreset"}]
+            for st in e.get("steps", []):
+                lines.append({"e": "wop", "op": st["op"], "b": st["b"], "off": st["off"], "t": st["t"],
+                              "data": st["data"], "len": st["len"], "empty": st["empty"]})
+            blocks.append((i, lines))
+    if not blocks:
+        return [], 0
+    n_shards = max(1, min(max_shards, len(blocks) // 300 + 1))
+    shard_blocks = [blocks[j::n_shards] for j in range(n_shards)]
+    rejected, consumed = [], 0
+    for round_no in range(40):
+        procs = []
+        for j, bl in enumerate(shard_blocks):
+            if not bl:
+                continue
+            tpath = os.path.join(workdir, "ctrace_%d.ndjson" % j)
+            with open(tpath, "w") as f:
+                for _, lines in bl:
+                    for ln in lines:
+                        f.write(json.dumps(ln, separators=(",", ":")) + "\n")
+            md = os.path.join(workdir, "ctv_%d" % j)
+            os.makedirs(md, exist_ok=True)
+            cmd = tlc_cmd(os.path.join(SPEC, "trace", "TraceCursor.tla"), os.path.join(SPEC, "trace", "TraceCursor.cfg"), md, 1,
+                          extra_jvm=["-XX:+UseSerialGC", "-Xms64m", "-Xmx4g", "-Xmn64m", "-XX:TieredStopAtLevel=1",
+                                     "-Dtlc2.tool.queue.IStateQueue=StateDeque"])
+            logf = open(os.path.join(workdir, "ctv_%d.log" % j), "w")
+            procs.append((j, subprocess.Popen(cmd, stdout=logf, stderr=subprocess.STDOUT, env=dict(os.environ, TRACE=tpath), cwd=md), logf))
+        again = False
+        for j, p, logf in procs:
+            try:
+                p.wait(timeout=3600)
+            except subprocess.TimeoutExpired:
+                p.kill()
+                raise ToolError("canonical trace validation timed out")
+            logf.close()
+            text = open(logf.name, errors="replace").read()
+            bl = shard_blocks[j]
+            total = sum(len(lines) for _, lines in bl)
+            m = re.search(r'<<"MATCHED", (\d+), (\d+)>>', text)
+            if m:
+                matched = int(m.group(1))
+                # the block containing line matched+1 is rejected; drop it and validate the rest again
+                acc = 0
+                for k, (idx, lines) in enumerate(bl):
+                    if acc + len(lines) > matched:
+                        rejected.append(idx)
+                        shard_blocks[j] = bl[:k] + bl[k + 1:]
+                        break
+                    acc += len(lines)
+                again = True
+            elif "Model checking completed. No error has been found." in text:
+                consumed += total
+                shard_blocks[j] = []
+            else:
+                raise ToolError("canonical trace validation failed; see %s\n%s" % (logf.name, "\n".join(text.splitlines()[-20:])))
+        if not again:
+            break
+    return rejected, consumed
+
+
 # ------------------------------------------------------------------------------------------
 # known findings
 
@@ -469,6 +550,17 @@ def main():
         t0 = time.time()
         fails, tv_states, n_shards = validate(live, workdir, max(1, NCPU - 2))
         log("validated %d events in %d shard(s), %.1fs; %d rejected" % (len(live), n_shards, time.time() - t0, len(fails)))
+        canonical_lines = 0
+        if plan.get("canonical"):
+            t0 = time.time()
+            rej, canonical_lines = validate_canonical(live, workdir, max(1, NCPU - 2))
+            by_idx = dict(fails)
+            for i in rej:
+                by_idx.setdefault(i, [])
+                by_idx[i] = list(by_idx[i]) + ["trace-rejected"]
+            fails = sorted(by_idx.items())
+            log("canonical trace validation (Reader / Writer machine actions): %d lines consumed, %d case(s) rejected, %.1fs"
+                % (canonical_lines, len(rej), time.time() - t0))
 
         # ---- attribution
         harness_broken = []
@@ -555,6 +647,7 @@ def main():
                            for n, r in mc.items()},
                 "events_by_kind": kinds,
                 "events_rejected_by_spec": len(fails),
+                "canonical_trace_lines_consumed": canonical_lines,
                 "events_contradicting_this_property": len(mine),
                 "process_deaths": len(dead),
                 "worker_stdout_octets": dev_out + rel_out, "worker_stderr_octets": dev_err + rel_err,
